@@ -125,7 +125,7 @@ def C12():
                   "list (0 for '' / black), encode_color_table generates the table from collect_document_colors(this document)",
         trusted_base=[SOLVERS, ENGINE, "stdlib: filtering comprehension, sorted(key=), list.index as functions of the input list with their defining axioms (DESIGN 1.7)"],
         assumptions=["collect_document_colors coverage of every emitted colour attribute and font-table references are not yet under contract in this check"],
-        replayers={"services/color_service.py::ColorService": R.replay_color_index, "lemma::c12": R.replay_color_index, "row.py::": R.replay_colour_references,
+        replayers={"services/color_service.py::ColorService": R.replay_color_index, "lemma::c12": R.replay_color_index, "row.py::": R.replay_colour_references, "table::colour_context_frame": R.replay_colour_references,
                    "services/encoding_service.py::": R.replay_colour_references, "rtf/syntax.py::": R.replay_colour_references,
                    "encoding/unified_encoder.py::UnifiedRTFEncoder.encode": R.replay_purity, "table::colour_collection": R.replay_colour_collection},
         design_ref="4/C12, A17",
